@@ -26,7 +26,12 @@ public:
         if (this->count.size() != array.dataExtent().size()) {
             throw IncompatibleDimensions("DataView count dimensionality does not match dimensionality of data", "nix::DataView");
         }
-        if (this->offset + this->count > array.dataExtent()) {
+        NDSize extent = array.dataExtent();
+        if (this->offset > extent) {
+            throw OutOfBounds("Trying to create DataView which is out of bounds");
+        }
+        // offset <= extent in every dimension, so the subtraction cannot wrap around
+        if (this->count > extent - this->offset) {
             throw OutOfBounds("Trying to create DataView which is out of bounds");
         }
     }
